@@ -239,6 +239,82 @@ fn receipts_roots(cfg: &Cfg, w: usize) -> Report {
     rep
 }
 
+/// The receipts context edited through its lock guard (what the VM's state rollback does):
+/// after pushes, in-place replacements, swaps, pop+push under one lock, truncation and
+/// growth the root must be the RFC 6962 root of the receipts it holds.
+fn receipts_ctx_edits(cfg: &Cfg, w: usize) -> Report {
+    use fuel_types::canonical::Serialize;
+    use fuel_vm::interpreter::ReceiptsCtx;
+    let mut rep = Report::new();
+    let n_cases = cfg.budget(64, 4000) as usize;
+    for case in 0..n_cases {
+        if case % cfg.threads.max(1) != w {
+            continue;
+        }
+        let mut rng = Rng::derive(cfg.seed, 0x9d, case as u64);
+        let mk = |rng: &mut Rng| fuel_tx::Receipt::log(fuel_types::ContractId::new(rng.arr()), rng.u64(), rng.u64(), rng.u64(), rng.u64(), rng.u64(), rng.u64());
+        let mut ctx = ReceiptsCtx::default();
+        let n = rng.below(40) as usize;
+        for _ in 0..n {
+            let r = mk(&mut rng);
+            let _ = ctx.push(r);
+        }
+        let mut ops = vec![];
+        for _ in 0..1 + rng.below(4) {
+            let op = rng.below(6);
+            {
+                let mut g = ctx.lock();
+                let v = g.receipts_mut();
+                match op {
+                    0 if !v.is_empty() => {
+                        let i = rng.usize_below(v.len());
+                        v[i] = mk(&mut rng);
+                        ops.push("replace");
+                    }
+                    1 if v.len() >= 2 => {
+                        let (i, j) = (rng.usize_below(v.len()), rng.usize_below(v.len()));
+                        v.swap(i, j);
+                        ops.push("swap");
+                    }
+                    2 if !v.is_empty() => {
+                        v.pop();
+                        v.push(mk(&mut rng));
+                        ops.push("pop+push");
+                    }
+                    3 => {
+                        let k = rng.usize_below(v.len() + 1);
+                        v.truncate(k);
+                        ops.push("truncate");
+                    }
+                    4 => {
+                        for _ in 0..1 + rng.below(5) {
+                            v.push(mk(&mut rng));
+                        }
+                        ops.push("extend");
+                    }
+                    _ => ops.push("none"),
+                }
+            }
+            rep.eval();
+            let leaves: Vec<Vec<u8>> = ctx.as_ref().iter().map(|x| x.to_bytes()).collect();
+            let want = r::mth(&leaves);
+            let got = ctx.root();
+            rep.class(format!("receipts_ctx|{}|n={}", ops.last().unwrap_or(&"none"), bucket(leaves.len() as u64)));
+            rep.count("receipts_ctx_roots_checked");
+            if got.as_slice() != &want[..] {
+                let info = json!({"kind": "receipts_ctx", "case": case, "ops": ops});
+                rep.violation(
+                    format!("C09|ReceiptsCtx|root!=MTH after an edit through the lock guard|{}", ops.last().unwrap_or(&"none")),
+                    format!("{} receipts after {:?}: root {} != {}", leaves.len(), ops, hx(*got), hx(want)),
+                    || info.clone(),
+                );
+                break;
+            }
+        }
+    }
+    rep
+}
+
 pub fn run(cfg: &Cfg) -> Report {
     let max_n = cfg.budget(1024, 4096) as usize;
     let mut counts = vec![];
@@ -256,6 +332,7 @@ pub fn run(cfg: &Cfg) -> Report {
         let mut r = dense(cfg, w, if w < 6 { max_n } else { max_n / 4 });
         r.merge(sparse(cfg, w, &counts));
         r.merge(receipts_roots(cfg, w));
+        r.merge(receipts_ctx_edits(cfg, w));
         r
     });
     rep.rule = "dense: every prefix 0..=n_max of 16 leaf streams (6 leaf styles incl. empty, 1-byte, 32-byte, node-like 65-byte) through 4 root implementations + sampled ephemeral_merkle_root/root_from_iterator; sparse: 2^k-1,2^k,2^k+1 and random big counts. class = (implementation, popcount(n) bucket, n bucket)".into();
